@@ -42,7 +42,7 @@ def REQUIRED(tier):
 
 def _required(tier):
     return ["unpack_checks", "pack_checks", "roundtrip_checks", "caller_buffer_checks", "canary_audits", "rejections_checked",
-            "default_order_file_roundtrips", "spot_checks_large", "spelling:alias", "large_order_switches_in_process", "strided_output_buffer_calls"]
+            "default_order_file_roundtrips", "spot_checks_large", "spelling:alias", "large_order_switches_in_process", "strided_output_buffer_calls", "writer:calls_of_shrinking_size", "reader:unpack_across_a_file_boundary"]
 
 
 def EXHAUSTIVE(tier):
@@ -395,6 +395,21 @@ def _run_case(case, ctx):
         ctx.count("default_order_file_roundtrips")
         if not np.array_equal(blk.data.T, X.astype(np.float32)):
             ctx.violation(f"default-order-reader:{nbits}bit", "FilReader unpacks with a different field order than the per-depth default", case)
+        # a file written in several calls of shrinking size (full gulps, then a shorter last one) is the packing of the samples written
+        p4 = os.path.join(ctx.tmp, f"w{nbits}_parts.fil")
+        with FileWriter(p4, mode="w", nbits=nbits) as fw:
+            fw.write(hdr)
+            for a, b in ((0, 12), (12, 24), (24, 31), (31, 33)):
+                fw.cwrite(X[a:b].ravel().astype(np.uint8))
+        ctx.count("default_order_file_roundtrips"); ctx.count("writer:calls_of_shrinking_size")
+        if sigfile.parse_file(p4)[2] != sigfile.encode_data(X, nbits):
+            ctx.violation(f"writer-multi-call:{nbits}bit", f"a {nbits}-bit file written in calls of 12, 12, 7 and 2 samples holds {len(sigfile.parse_file(p4)[2])} data bytes / other bytes than the packing of the 33 samples", case)
+        # the same samples spread over two files and read back in one counted read across the boundary
+        pa = sigfile.write_split(ctx.tmp, X, nbits, [13, 20], stem=f"two{nbits}")
+        blk2 = FilReader(pa).read_block(5, 25)
+        ctx.count("default_order_file_roundtrips"); ctx.count("reader:unpack_across_a_file_boundary")
+        if not np.array_equal(blk2.data.T, X[5:30].astype(np.float32)):
+            ctx.violation(f"reader-across-files:{nbits}bit", "a block read across the boundary of two files differs from the unpacking of the stream's bytes", case)
         ctx.nontrivial_case(case)
         return
     raise ValueError(kind)
